@@ -79,9 +79,9 @@ func gen(w *world, t *trace.W, r *rng.R, maxOps int, srv bool) {
 	cleaned := false
 	for k := 0; k < ops; k++ {
 		var op string
-		weights := []int{22, 10, 14, 9, 12, 3, 7, 5, 12, 0, 0}
+		weights := []int{22, 10, 14, 9, 12, 3, 7, 5, 12, 0, 0, 4}
 		if srv {
-			weights[9], weights[10] = 12, 14
+			weights[9], weights[10], weights[11] = 12, 14, 0
 		}
 		switch r.Pick(weights...) {
 		case 0, 9:
@@ -123,10 +123,17 @@ func gen(w *world, t *trace.W, r *rng.R, maxOps int, srv bool) {
 			var ss []string
 			for i := 0; i < np; i++ {
 				j := r.Intn(len(cand))
-				ss = append(ss, fmt.Sprint(cand[j]))
+				role := ""
+				if i > 0 && r.Bool(2, 5) {
+					role = "L" // a learner peer (TiFlash replica, in-flight add-learner): it counts as a region peer
+				}
+				ss = append(ss, fmt.Sprint(cand[j])+role)
 				cand = append(cand[:j], cand[j+1:]...)
 			}
 			op = fmt.Sprintf("region %d %s", r.Range(1, 3), strings.Join(ss, " "))
+		case 11:
+			// a new leader takes over: fresh cache, LoadClusterInfo from the same storage (bare cluster only)
+			op = "restart"
 		case 10:
 			op = fmt.Sprintf("ghb %d %d", genID(r), genMask(r))
 			if cleaned {
